@@ -13,7 +13,8 @@ SHARDS = {'quick': 4, 'thorough': 16}
 N = {'quick': 90, 'thorough': 2500}      # rulesets per shard
 
 def gen_case(rng):
-    spec = rulesets.gen_spec(rng)
+    mg, xg, ml = rng.choice([(1, 4, 4), (2, 5, 3), (3, 6, 3), (3, 7, 4)])
+    spec = rulesets.gen_spec(rng, min_groups=mg, max_groups=xg, max_len=ml)
     flags = {'skip_brute': rng.random() < 0.4, 'all_lower': rng.random() < 0.3,
              'folder': 'Prince' if rng.random() < 0.2 else 'Grammar'}
     if flags['folder'] == 'Prince':
